@@ -72,7 +72,9 @@ where
         if idx >= self.len() {
             ret = None;
         } else {
-            let mut limit = idx + len;
+            // `len` comes from the caller (e.g. the `max_outgoing_packet_count` setting) and may be
+            // as large as u64::MAX: saturate instead of wrapping around to a limit below `idx`
+            let mut limit = idx.saturating_add(len);
 
             ret = Some(limit);
 
